@@ -35,8 +35,11 @@ def cases_for(pid):
     mp = os.path.join(VERIF, "selftest", "mutants", pid + ".json")
     if os.path.exists(mp):
         for m in json.load(open(mp)):
-            out.append({"name": "mutant " + m["name"], "kind": "edit", "spec": {"file": m["file"], "find": m["find"], "replace": m["replace"]},
-                        "expect": m["expect"], "rules": m.get("rules", []), "why": m.get("why", "")})
+            if "edits" in m:
+                out.append({"name": "refactor " + m["name"], "kind": "regex", "spec": m["edits"], "expect": m["expect"], "rules": [], "why": m.get("why", "")})
+            else:
+                out.append({"name": "mutant " + m["name"], "kind": "edit", "spec": {"file": m["file"], "find": m["find"], "replace": m["replace"]},
+                            "expect": m["expect"], "rules": m.get("rules", []), "why": m.get("why", "")})
     return out
 
 
@@ -64,6 +67,11 @@ def run(pid, rep):
                 rep.holds("SELF", "-", None, c["name"], "detected by rule(s) %s (recorded: %s)" % (v["rules"], c.get("rules")))
             else:
                 rep.unknown("SELF", "-", None, c["name"], "NOT detected any more (exit %d): %s" % (v["exit"], v["lines"][:2]))
+        elif c["expect"] == "not-violation":
+            if v["exit"] in (0, 2):
+                rep.holds("SELF", "-", None, c["name"], "behaviour-preserving refactor raises no alarm (%s)" % ("silent" if v["exit"] == 0 else "undecided, exit 2"))
+            else:
+                rep.unknown("SELF", "-", None, c["name"], "alarm on a behaviour-preserving refactor: %s" % v["lines"][:2])
         elif c["expect"] == "holds":
             if v["exit"] == 0:
                 rep.holds("SELF", "-", None, c["name"], "behaviour-preserving variant stays silent")
